@@ -26,6 +26,7 @@ type tState struct {
 	best   string
 	detail string
 	out    []tEdge // deduplicated on (op,to)
+	audit  []tEdge // A lines (twin audit): op, hist, tables
 	known  bool    // an S line was seen
 	noOps  bool    // a Z line was seen
 	closed int     // rounds of a K line (closure by the default fair schedule), 0 = none
@@ -44,6 +45,8 @@ type tGraph struct {
 	// same canonical state reached by DIFFERENT histories, same event, different successor: either
 	// nondeterminism again or the canonical form merges states with different futures
 	suspect []string
+	// twin audit: canonical states audited, operations executed from both twins
+	auditStates, auditOps int
 }
 
 func loadTraces(id string) map[string]*tGraph {
@@ -91,6 +94,11 @@ func loadTraces(id string) map[string]*tGraph {
 				if len(p) >= 3 {
 					fmt.Sscanf(p[2], "%d", &get(p[1]).closed)
 				}
+			case "A":
+				if len(p) >= 5 {
+					st := get(p[1])
+					st.audit = append(st.audit, tEdge{op: p[2], hist: p[3], tables: p[4]})
+				}
 			case "Z":
 				if len(p) >= 2 {
 					get(p[1]).noOps = true
@@ -128,6 +136,36 @@ func loadTraces(id string) map[string]*tGraph {
 			}
 		}
 		f.Close()
+	}
+	// twin audit: the successors computed from the second history of a canonical state against those
+	// computed from the first one and against the transitions of the search itself
+	for _, g := range out {
+		hs := make([]string, 0, len(g.states))
+		for h, st := range g.states {
+			if len(st.audit) > 0 {
+				hs = append(hs, h)
+			}
+		}
+		sort.Strings(hs)
+		for _, h := range hs {
+			st := g.states[h]
+			g.auditStates++
+			byOp := map[string][]tEdge{}
+			for _, e := range st.out {
+				byOp[e.op] = append(byOp[e.op], e)
+			}
+			for _, a := range st.audit {
+				if a.op != "(enabled operations)" {
+					g.auditOps++
+				}
+				for _, e := range byOp[a.op] {
+					if e.tables != a.tables && e.hist != a.hist && len(g.suspect) < 5 {
+						g.suspect = append(g.suspect, fmt.Sprintf("state %s (histories %s, %s) op %s -> %s and %s (twin audit)", h, e.hist, a.hist, a.op, e.tables, a.tables))
+					}
+				}
+				byOp[a.op] = append(byOp[a.op], a)
+			}
+		}
 	}
 	return out
 }
@@ -182,6 +220,9 @@ type ConfigSummary struct {
 	MaxClosingRounds  int      `json:"max_closing_rounds"`
 	Nondeterministic  []string `json:"nondeterministic_transitions,omitempty"`
 	UnboundedUnfairly bool     `json:"unbounded_without_fairness,omitempty"`
+	// twin audit of the canonical form (twins.go)
+	TwinStates int `json:"canonical_states_audited_from_two_histories,omitempty"`
+	TwinOps    int `json:"operations_executed_from_both_twins,omitempty"`
 }
 
 // AnalyseC18 rebuilds the explored state graphs and decides C18.fix and C18.unique on them.
@@ -207,11 +248,18 @@ func AnalyseC18(rep *report.Reporter, cov report.Coverage) {
 		}
 	}
 	cov["graph_analysis"] = sums
+	ts, to := 0, 0
+	for _, s := range sums {
+		ts += s.TwinStates
+		to += s.TwinOps
+	}
+	cov["canonical_form_twin_audit"] = map[string]any{"canonical_states_audited_from_two_histories": ts, "operations_executed_from_both_twins": to,
+		"rule": "for a canonical state reached by two different histories every enabled operation (deviations included) is executed from both; equal canonical state must give equal canonical successors, else CHECK-ERROR"}
 	cov["max_state_changing_events_to_fixed_point_any_config"] = worstBound
 }
 
 func analyse(g *tGraph, rep *report.Reporter) ConfigSummary {
-	sum := ConfigSummary{Config: g.cfg, States: len(g.states), Nondeterministic: g.nondet}
+	sum := ConfigSummary{Config: g.cfg, States: len(g.states), Nondeterministic: g.nondet, TwinStates: g.auditStates, TwinOps: g.auditOps / 2}
 	add := func(clause, key, detail string, st string, extra []string) {
 		ops := g.pathTo(st)
 		ops = append(ops, extra...)
